@@ -112,6 +112,12 @@ def catalogue(da, a, b, t, sq, v, ds, tmpdir, cn):
         'dropna': lambda: a.dropna(axis=y), 'dropna-minvalid': lambda: a.dropna(axis=z, minvalid=1), 'fillna': lambda: a.fillna(0), 'setna': lambda: a.setna(a.values[0, 0, 0]),
         'to_json': lambda: a.to_json(), 'to_jsondict': lambda: a.to_jsondict(), 'from_json-roundtrip': lambda: da.DimArray.from_json(a.to_json()),
         'Dataset()': lambda: da.Dataset(a=a, b=b), 'Dataset-insert': lambda: da.Dataset().__setitem__('a', a), 'to_dataset': lambda: a.to_dataset(axis=x),
+        # constructors fed with an existing array / its Axes object (with and without other names)
+        'ctor-from-dimarray': lambda: da.DimArray(a), 'ctor-from-dimarray-dims': lambda: da.DimArray(a, dims=['p9', 'q9', 'r9']),
+        'ctor-axes-object': lambda: da.DimArray(a.values, axes=a.axes), 'ctor-axes-object-dims': lambda: da.DimArray(a.values, axes=a.axes, dims=['p9', 'q9', 'r9']),
+        'ctor-axes-list': lambda: da.DimArray(a.values, axes=list(a.axes)), 'ctor-axes-list-dims': lambda: da.DimArray(a.values, axes=list(a.axes), dims=['p9', 'q9', 'r9']),
+        'ctor-copy-false': lambda: da.DimArray(a.values, axes=list(a.axes), copy=False), 'array-from-dimarray': lambda: da.array(a, dims=['p9', 'q9', 'r9']),
+        'from_nested': lambda: da.DimArray.from_nested([a, a], dims=['n9', 'p9', 'q9', 'r9']), 'Dataset-from-dict': lambda: da.Dataset({'k1': a, 'k2': t}),
         'apply': lambda: a.apply(np.sqrt), 'take_axis': lambda: a.take_axis([0, 0], axis=y, indexing='position'), 'compress_axis': lambda: a.compress_axis(ya != y0, axis=y),
         'iter': lambda: list(a.iter(y)), 'to_list': lambda: a.to_list(), 'array()': lambda: da.array([a, b]), 'to_MaskedArray': lambda: a.to_MaskedArray(),
         'np.asarray': lambda: np.asarray(a) + 1, 'repr': lambda: (repr(a), str(a), repr(a.axes)), 'labels': lambda: (a.labels, a.dims, a.shape),
